@@ -212,8 +212,8 @@ def generate(ctx, unrepaired):
     ncex = len(behs)
     # "disk" and "deleg2" start from a seeded state: a prelude of 2 / 5 operations is the beginning of every behaviour
     # "slots", "old", "recs2": a prelude of 3 / 2 / 3 operations executed by the model itself
-    gd = ({"acct": 4, "val": 4, "recs": 4, "disk": 2 + 5, "deleg2": 5 + 3, "slots": 3 + 4, "old": 2 + 4, "recs2": 3 + 3, "blind": 3 + 3, "reset": 3 + 4} if quick
-          else {"acct": 5, "val": 5, "recs": 5, "disk": 2 + 6, "deleg2": 5 + 4, "slots": 3 + 5, "old": 2 + 5, "recs2": 3 + 5, "blind": 3 + 5, "reset": 3 + 5})
+    gd = ({"acct": 4, "val": 4, "recs": 4, "disk": 2 + 5, "deleg2": 5 + 3, "slots": 3 + 4, "old": 2 + 4, "recs2": 3 + 3, "blind": 3 + 3, "reset": 3 + 4, "lazy": 5 + 3} if quick
+          else {"acct": 5, "val": 5, "recs": 5, "disk": 2 + 6, "deleg2": 5 + 4, "slots": 3 + 5, "old": 2 + 5, "recs2": 3 + 5, "blind": 3 + 5, "reset": 3 + 5, "lazy": 5 + 4})
     for alpha, d in gd.items():
         g = ctx.tlc_must("StateCommit", G_CFG % (d, alpha, fixset(fix_now)), name="G1_%s_%d" % (alpha, d), timeout=2400)
         behs += [v["h"] for v in g.printed if isinstance(v, dict) and v.get("kind") == "B"]
@@ -290,6 +290,10 @@ def run(ctx):
         "root triples are filed both under the dump taken before the root computation and under the one taken after it; "
         "ReloadOld(k) = state.New(k-th last committed roots, k <= 4) through the same Database as a read-only probe; "
         "AddRecordOther = AddStakingRecord on the most recent frozen object (both sides of a copy go on recording)",
+        "every generated Root / Commit / Reload carries the content the model says has been WRITTEN (tag); SameContentSameRoots "
+        "also files the real roots under that tag (discriminator 'written'); flag b = 2: no dump before the root computation; "
+        "ReadComp(c) reads one lazily loaded component (statistics, validator record/index, withdraw queue, pending "
+        "relationships, staking record, delegation list)",
         "blind steps (flag b generated by TLC): CopySwap on a clean object with no dump, immediately followed by Reload "
         "(commit of the never-read copy, reopen) with dumps of the reopened copy only and, afterwards, of the original",
         "copies: the object nobody writes to is dumped again after EVERY later operation and at the end; no Snapshot/Revert here (C09)",
@@ -306,7 +310,7 @@ def run(ctx):
         raise vlib.Undecided("the intended design violates %s but the counterexample did not reproduce on the real code: "
                              "specification error" % ctx.cov["design_violation"])
     fired = ctx.cov.get("clauses_fired", {})
-    zero = [k for k in ("BlindCopies", "OldReopens", "BothSides", "DiskReopens", "Reopens", "CopyEqs", "Indeps", "RootObsN", "RootsCompared") if not fired.get(k)]
+    zero = [k for k in ("TagsCompared", "BlindCopies", "OldReopens", "BothSides", "DiskReopens", "Reopens", "CopyEqs", "Indeps", "RootObsN", "RootsCompared") if not fired.get(k)]
     if zero:
         raise vlib.Undecided("vacuous clauses (never evaluated): %s" % zero)
 
